@@ -4,7 +4,7 @@ Python side of the check (run kind `python=`): enumerates the case spaces, drive
 (XV_WORKERS processes, each a Python worker that writes case files, runs the C++ batch driver, and compares every answer
 with the reference model of xv/c09_oracle.py).  See docs/c09.md.
 """
-import json, os, subprocess, sys, time
+import json, os, re, subprocess, sys, time
 from fractions import Fraction
 
 from . import build
@@ -588,6 +588,316 @@ DBL_MAX = (2 ** 53 - 1) * Fraction(2) ** 971
 DBL_MIN_SUB = Fraction(2) ** -1074
 
 
+# ================================================================================================ listed library defects
+DT8 = ("dateTime", "time", "date", "gYearMonth", "gYear", "gMonthDay", "gDay", "gMonth")
+STRS = ("string", "normalizedString", "token", "language", "NMTOKEN", "Name", "NCName", "ID", "IDREF", "ENTITY", "anyURI")
+QENUM = {"r": {"b": "QName"}, "f": [["enumeration", "p:a"], ["enumeration", "b"]]}
+
+
+def _inv(f):
+    return f[1] != "1"
+
+
+# id, what fails / where, witness (op, tdef, args), strict expectation on the driver's answer fields, expected (text), model scope
+# (built-ins whose verdicts / comparisons the defect's alternative model in c09_oracle.VARIANTS can change; None: predicate only)
+DEFECTS = [
+    dict(id="decimal-bare-point-accepted", where="util/XMLBigDecimal.cpp parseDecimal", what="decimal literal without any digit ('.', '+.', '-.') accepted",
+         w=("V", B("decimal"), ["."]), ok=_inv, expected="invalid", scope=("decimal",)),
+    dict(id="float-bare-point-accepted", where="util/XMLAbstractDoubleFloat.cpp init/convert", what="float/double literal without any digit ('.', '+.', '-.') accepted",
+         w=("V", B("double"), ["-."]), ok=_inv, expected="invalid", scope=("float", "double")),
+    dict(id="time-fraction-point-without-digits", where="util/XMLDateTime.cpp getTime", what="dateTime/time: '.' without fraction digits accepted when a time zone follows (00:00:00.Z)",
+         w=("V", B("time"), ["00:00:00.Z"]), ok=_inv, expected="invalid", scope=("dateTime", "time")),
+    dict(id="duration-designator-without-number", where="util/XMLDateTime.cpp parseDuration/parseInt", what="duration designator without a number accepted (PY, PM, PTH)",
+         w=("V", B("duration"), ["PY"]), ok=_inv, expected="invalid", scope=("duration",)),
+    dict(id="duration-seconds-without-integer-digits", where="util/XMLDateTime.cpp parseDuration", what="duration seconds without integer digits accepted (PT.5S; E2-23 requires [0-9]+(\\.[0-9]+)?)",
+         w=("V", B("duration"), ["PT.5S"]), ok=_inv, expected="invalid", scope=("duration",)),
+    dict(id="datetime-hour24-not-next-day", where="util/XMLDateTime.cpp normalize / getDateTimeCanonicalRepresentation / compareOrder",
+         what="dateTime ...T24:00:00 (no or Z time zone) is not the first instant of the next day: canonical form keeps the date, compare/bounds order it before the next day's 00:00:00",
+         w=("V", B("dateTime"), ["2000-01-01T24:00:00"]), ok=lambda f: f[2] == "2000-01-02T00:00:00", expected="canonical 2000-01-02T00:00:00", scope=("dateTime",)),
+    dict(id="datetime-canonical-year-zero", where="util/XMLDateTime.cpp normalize (no year 0000 in XSD 1.0)", what="time-zone normalisation across year 1 yields canonical year 0000, which is not a valid literal",
+         w=("V", B("dateTime"), ["0001-01-01T00:00:00+14:00"]), ok=lambda f: f[2] == "-0001-12-31T10:00:00Z", expected="canonical -0001-12-31T10:00:00Z", scope=None),
+    dict(id="tz-14h-boundary-not-indeterminate", where="util/XMLDateTime.cpp compare/getRetVal", what="timezoned vs non-timezoned value exactly 14:00 apart compares EQUAL / GREATER instead of indeterminate "
+         "(enumeration, bounds, compare on all date/time types)",
+         w=("C", B("dateTime"), ["2000-01-01T12:00:00", "1999-12-31T22:00:00Z"]), ok=lambda f: f[1] not in ("0",), expected="compare != 0", scope=DT8),
+    dict(id="inclusive-bounds-accept-indeterminate", where="validators/datatype/AbstractNumericValidator.cpp boundsCheck", what="minInclusive/maxInclusive accept values whose comparison with the bound is "
+         "indeterminate (NaN on float/double, P30D vs P1M, timezoned vs non-timezoned)",
+         w=("V", R(B("float"), ("minInclusive", "0")), ["NaN"]), ok=_inv, expected="invalid", scope=("float", "double", "duration") + DT8),
+    dict(id="duration-compare-ignores-fraction", where="util/XMLDateTime.cpp compare(duration)/addDuration", what="duration comparison ignores fractional seconds (PT0.5S equals PT0.6S and P0D)",
+         w=("C", B("duration"), ["PT0.5S", "PT0.6S"]), ok=lambda f: f[1] == "-1", expected="compare == -1", scope=("duration",)),
+    dict(id="float-compared-in-double-precision", where="util/XMLFloat.cpp checkBoundary / XMLAbstractDoubleFloat::compareValues", what="xs:float values compared in double precision (0.1 != 0.100000001, "
+         "16777216 != 16777217)", w=("C", B("float"), ["0.1", "0.100000001"]), ok=lambda f: f[1] == "0", expected="compare == 0", scope=("float",)),
+    dict(id="hexbinary-compare-lexical", where="validators/datatype/HexBinaryDatatypeValidator (no compare override)", what="hexBinary compare is lexical (0a != 0A)",
+         w=("C", B("hexBinary"), ["0a", "0A"]), ok=lambda f: f[1] == "0", expected="compare == 0", scope=None),
+    dict(id="base64binary-compare-lexical", where="validators/datatype/Base64BinaryDatatypeValidator (no compare override)", what="base64Binary compare is lexical ('AA==' != 'A A = =')",
+         w=("C", B("base64Binary"), ["AA==", "A A = ="]), ok=lambda f: f[1] == "0", expected="compare == 0", scope=None),
+    dict(id="hexbinary-canonical-unchanged", where="validators/datatype/HexBinaryDatatypeValidator (no getCanonicalRepresentation override)", what="validator's canonical form of hexBinary is the literal itself (0a)",
+         w=("V", B("hexBinary"), ["0a"]), ok=lambda f: f[2] == "0A", expected="canonical 0A", scope=None),
+    dict(id="base64binary-canonical-unchanged", where="validators/datatype/Base64BinaryDatatypeValidator (no getCanonicalRepresentation override)", what="validator's canonical form of base64Binary keeps the blanks",
+         w=("V", B("base64Binary"), ["A A = ="]), ok=lambda f: f[2] == "AA==", expected="canonical AA==", scope=None),
+    dict(id="union-compare-across-member-types", where="validators/datatype/UnionDatatypeValidator.cpp compare", what="inside a union, values of different member types compare equal (int 1 == boolean true): "
+         "equality not transitive, enumerations on (lists of) unions accept wrong values",
+         w=("C", {"u": [B("int"), B("boolean")]}, ["1", "true"]), ok=lambda f: f[1] != "0", expected="compare != 0", scope="union"),
+    dict(id="qname-enumeration-unprefixed-entry", where="validators/datatype/QNameDatatypeValidator.cpp checkContent", what="QName enumeration: an unprefixed enumeration entry matches any instance value "
+         "with the same local name (enumeration {p:a, b} accepts p:b), in-parse", w=("P", QENUM, ["p:b"]), ok=lambda f: f[1] == "0", expected="validation error", scope=None),
+    dict(id="length-facets-count-utf16-units", where="validators/datatype/AbstractStringValidator.cpp getLength (XMLString::stringLen)", what="length/minLength/maxLength count UTF-16 code units, not characters",
+         w=("V", R(B("string"), ("length", "1")), ["\U00010000"]), ok=lambda f: f[1] == "1", expected="valid", scope=STRS),
+    dict(id="float-canonical-mantissa-leading-zero", where="util/XMLAbstractDoubleFloat.cpp getCanonicalRepresentation", what="float/double canonical form of .01 is 0.1E-1 (not canonical, not idempotent)",
+         w=("V", B("float"), [".01"]), ok=lambda f: f[2] == "1.0E-2", expected="canonical 1.0E-2", scope=None),
+    dict(id="xsvalue-special-float-actual-normal", where="framework/psvi/XSValue.cpp getActValNumerics", what="XSValue::getActualValue(INF|-INF|NaN) reports DoubleFloatType_Normal with value 0",
+         w=("V", B("double"), ["INF"]), ok=lambda f: f[5].startswith("g:1:"), expected="f_doubleEnum = DoubleFloatType_PosINF", scope=None),
+    dict(id="xsvalue-string-rejects-non-bmp", where="framework/psvi/XSValue.cpp validateStrings", what="XSValue::validate(dt_string|normalizedString|token) rejects characters outside the BMP (surrogates tested singly)",
+         w=("V", B("string"), ["\U00010000"]), ok=lambda f: f[3] == "1", expected="XSValue::validate true", scope=None),
+    dict(id="xsvalue-unsigned-rejects-minus-zero", where="framework/psvi/XSValue.cpp getActualNumericValue", what="XSValue rejects -0 for unsignedInt/Short/Byte (validators accept); no actual value for "
+         "nonNegativeInteger/unsignedLong -0 although validate() is true", w=("V", B("unsignedInt"), ["-0"]), ok=lambda f: f[3] == "1", expected="XSValue::validate true", scope=None),
+    dict(id="xsvalue-notation-uri-local-form", where="framework/psvi/XSValue.cpp validateStrings / util/XMLString.cpp isValidNOTATION", what="XSValue dt_NOTATION expects URI:local instead of a QName "
+         "(rejects p:a, accepts a:a:a)", w=("V", B("NOTATION"), ["p:a"]), ok=lambda f: f[3] == "1", expected="XSValue::validate true", scope=None),
+    dict(id="xsvalue-anyuri-rejects-space", where="framework/psvi/XSValue.cpp validateStrings (XMLUri::isValidURI without escaping)", what="XSValue dt_anyURI rejects literals with a blank in the authority/path that "
+         "the validator accepts ('// a')", w=("V", B("anyURI"), ["// a"]), ok=lambda f: f[3] == "1", expected="XSValue::validate true", scope=None),
+]
+DEFECT_BY_ID = {d["id"]: d for d in DEFECTS}
+ACTIVE = set()         # ids whose witness fails on the library under test; only these may explain a mismatch
+_TCACHE = {}
+
+
+def run_witnesses(exe, env, workdir):
+    """-> {id: (passed, observed result line)}; every witness is one strict assertion on one minimal case"""
+    tdefs = [d["w"][1] for d in DEFECTS]
+    xsd, _ = O.emit_schema(tdefs)
+    sp, tp = os.path.join(workdir, "wit.xsd"), os.path.join(workdir, "wit.types")
+    open(sp, "w", encoding="utf-8").write(xsd)
+    open(tp, "w").write("".join("%d\t%s\n" % (i, t["b"] if "b" in t else "-") for i, t in enumerate(tdefs)))
+    lines = []
+    for i, d in enumerate(DEFECTS):
+        op, tdef, args = d["w"]
+        if op == "P":
+            lines.append("P\t%d\tIG\t%s" % (i, "\t".join(esc(a) for a in args)))
+        else:
+            lines.append("%s\t%d\t%s" % (op, i, "\t".join(esc(O.ws_apply(Type(tdef).ws, a)) for a in args)))
+    crashes = []
+    drv = Drv(exe, env, sp, tp, workdir, "wit")
+    diags, res = drv.run(lines, "wit0", crashes)
+    drv.close()
+    for fn in ("wit.xsd", "wit.types"):
+        if not os.environ.get("XV_KEEP"):
+            os.unlink(os.path.join(workdir, fn))
+    out = {}
+    for d, ln, r in zip(DEFECTS, lines, res or [""] * len(lines)):
+        f = r.split("\t")
+        try:
+            passed = f[0] != "X" and bool(d["ok"](f))
+        except Exception:
+            passed = False
+        out[d["id"]] = (passed, r, ln)
+    return out
+
+
+def _with(S, fn):
+    old = O.VARIANTS
+    O.VARIANTS = set(S)
+    try:
+        return fn()
+    finally:
+        O.VARIANTS = old
+
+
+def _model_type(tdef, S):
+    key = (json.dumps(tdef, sort_keys=True), frozenset(S))
+    if key not in _TCACHE:
+        if len(_TCACHE) > 20000:
+            _TCACHE.clear()
+        try:
+            _TCACHE[key] = _with(S, lambda: Type(tdef))
+        except Exception:
+            _TCACHE[key] = None
+    return _TCACHE[key]
+
+
+def _scope_ok(d, tdef):
+    sc = d["scope"]
+    if sc is None:
+        return False
+    if sc == "union":
+        return '"u"' in json.dumps(tdef)
+    return uses_builtin(tdef, sc)
+
+
+def _subsets(ids):
+    ids = sorted(ids)
+    for a in ids:
+        yield (a,)
+    for i, a in enumerate(ids):
+        for b in ids[i + 1:]:
+            yield (a, b)
+    if len(ids) <= 6:
+        for i, a in enumerate(ids):
+            for j in range(i + 1, len(ids)):
+                for k in range(j + 1, len(ids)):
+                    yield (a, ids[j], ids[k])
+
+
+def parse_expect(T, tdef, st, lex):
+    """what in-parse validation must say, given the stand-alone verdict: ENTITY values need a declared unparsed entity, QName prefixes a binding"""
+    if st == "V" and uses_builtin(tdef, ("ENTITY", "ENTITIES")):
+        return "I", "entity"
+    if st == "V" and T.variety == "atomic" and isinstance(T.prim, O.QNameT) and ":" in lex and lex.split(":")[0] != "p":
+        return "I", "prefix"
+    return st, None
+
+
+def compare_expect(T, a, b):
+    sa, va, _ = T.check(a)
+    sb, vb, _ = T.check(b)
+    if sa != "V" or sb != "V":
+        return None
+    if T.variety == "atomic" and T.prim.ordered:
+        return T.vcmp(va, vb)
+    return EQ if T.veq(va, vb) else IN
+
+
+def compare_consistent(T, exp, r):
+    if exp is None:
+        return False
+    if (exp == EQ) != (r == 0):
+        return False
+    if T.primitive_ordered():
+        if exp == LT and r != -1:
+            return False
+        if exp == GT and r != 1:
+            return False
+    return True
+
+
+_SIG2REL = {(True, True, False, False): GT, (False, True, True, False): EQ, (False, False, True, True): LT, (False, False, False, False): IN}
+
+
+def model_sig(name, w, v, S):
+    sig = []
+    for k in ("minExclusive", "minInclusive", "maxInclusive", "maxExclusive"):
+        T = _model_type(R(B(name), (k, v)), S)
+        if T is None:
+            return None
+        sig.append(_with(S, lambda: T.check(w)[0]) == "V")
+    return tuple(sig)
+
+
+def _xerces_hour24_canon(lex):
+    T = Type(B("dateTime"))
+    st, v, _ = T.check(lex.replace("T24:00:00", "T00:00:00"))
+    return T.prim.canon(v, lex) if st == "V" else None
+
+
+def _prim_name(tdef):
+    while "r" in tdef:
+        tdef = tdef["r"]
+    return tdef.get("b")
+
+
+def explain(kind, f):
+    """-> ids of ACTIVE listed defects that *exactly* predict this mismatch (minimal set), or None.  Narrow by construction: either a
+    predicate over (type, literal, observed) specific to one defect, or 'the reference model with this defect's alternative behaviour switched
+    on (c09_oracle.VARIANTS) predicts precisely the observed answer'."""
+    if not ACTIVE:
+        return None
+    tdef = f.get("tdef")
+    prim = _prim_name(tdef) if tdef else None
+    lex = f.get("lex")
+    act = lambda i: i in ACTIVE
+    # ---------------- predicate-only defects
+    if kind.endswith(("-canon-form", "-canon-changes-value", "-canon-not-valid", "-canon-not-in-lexical-space", "-canon-not-idempotent")):
+        c = f.get("observed") if kind.endswith("-canon-form") else f.get("canonical")
+        if prim == "dateTime" and lex and "T24:00:00" in lex and act("datetime-hour24-not-next-day") and not kind.endswith("idempotent") and c == _xerces_hour24_canon(lex):
+            return ["datetime-hour24-not-next-day"]
+        if prim in ("dateTime", "date") and isinstance(c, str) and c.startswith("0000-") and act("datetime-canonical-year-zero") and kind.endswith(("-canon-not-valid", "-canon-not-in-lexical-space")):
+            return ["datetime-canonical-year-zero"]
+        if kind == "dv-canon-form" and prim == "hexBinary" and c == lex and act("hexbinary-canonical-unchanged"):
+            return ["hexbinary-canonical-unchanged"]
+        if kind == "dv-canon-form" and prim == "base64Binary" and c == lex and act("base64binary-canonical-unchanged"):
+            return ["base64binary-canonical-unchanged"]
+        if prim in ("float", "double") and isinstance(c, str) and re.match(r"-?0\.[0-9]*[1-9][0-9]*E-?[0-9]+\Z", c) and act("float-canonical-mantissa-leading-zero") \
+                and kind.endswith(("-canon-form", "-canon-not-idempotent")):
+            return ["float-canonical-mantissa-leading-zero"]
+        return None
+    if kind == "xsvalue-actual" and prim in ("float", "double") and lex in ("INF", "-INF", "NaN") and str(f.get("observed")).endswith(":4:0") and act("xsvalue-special-float-actual-normal"):
+        return ["xsvalue-special-float-actual-normal"]
+    if kind == "xsvalue-verdict-differs-from-validator" and f.get("dv") == "1" and str(f.get("xsvalue")).startswith("0"):
+        if prim in ("string", "normalizedString", "token") and any(ord(ch) > 0xFFFF for ch in lex) and act("xsvalue-string-rejects-non-bmp"):
+            return ["xsvalue-string-rejects-non-bmp"]
+        if prim in ("unsignedInt", "unsignedShort", "unsignedByte") and re.match(r"-0+\Z", lex) and act("xsvalue-unsigned-rejects-minus-zero"):
+            return ["xsvalue-unsigned-rejects-minus-zero"]
+        if prim == "anyURI" and " " in lex and act("xsvalue-anyuri-rejects-space"):
+            return ["xsvalue-anyuri-rejects-space"]
+        return None
+    if kind == "xsvalue-actual-missing" and prim in ("nonNegativeInteger", "unsignedLong") and re.match(r"-0+\Z", lex) and act("xsvalue-unsigned-rejects-minus-zero"):
+        return ["xsvalue-unsigned-rejects-minus-zero"]
+    if kind in ("xsvalue-rejects-valid", "xsvalue-accepts-invalid") and prim == "NOTATION" and ":" in lex and act("xsvalue-notation-uri-local-form"):
+        return ["xsvalue-notation-uri-local-form"]
+    if kind == "compare-equal-values-differ" and prim == "hexBinary" and f["a"].lower() == f["b"].lower() and act("hexbinary-compare-lexical"):
+        return ["hexbinary-compare-lexical"]
+    if kind == "compare-equal-values-differ" and prim == "base64Binary" and f["a"].replace(" ", "") == f["b"].replace(" ", "") and act("base64binary-compare-lexical"):
+        return ["base64binary-compare-lexical"]
+    if kind == "parse-accepts-invalid" and prim == "QName" and act("qname-enumeration-unprefixed-entry") and lex and ":" in lex:
+        ens = []
+        t = tdef
+        while "r" in t:
+            ens += [v for k, v in t["f"] if k == "enumeration"]
+            t = t["r"]
+        if any(":" not in e and e == lex.split(":")[1] for e in ens) and lex.split(":")[0] == "p":
+            return ["qname-enumeration-unprefixed-entry"]
+        return None
+    # ---------------- model defects: the reference model + the defect's alternative behaviour must predict exactly the observation
+    if kind.startswith("order-"):
+        name = f.get("type")
+        cand = [d["id"] for d in DEFECTS if d["id"] in ACTIVE and d["scope"] not in (None, "union") and name in d["scope"]]
+        for S in _subsets(cand):
+            if kind == "order-not-transitive":
+                okk = all(_SIG2REL.get(model_sig(name, x, y, S)) == r for x, y, r in ((f["a"], f["b"], f["ab"]), (f["b"], f["c"], f["bc"]), (f["a"], f["c"], f["ac"])))
+            elif kind == "order-not-antisymmetric":
+                okk = _SIG2REL.get(model_sig(name, f["a"], f["b"], S)) == f["ab"] and _SIG2REL.get(model_sig(name, f["b"], f["a"], S)) == f["ba"]
+            elif kind == "order-facets-inconsistent":
+                okk = model_sig(name, f["w"], f["v"], S) == tuple(f["gt_ge_le_lt"])
+            elif kind == "order-not-reflexive":
+                okk = _SIG2REL.get(model_sig(name, f["a"], f["a"], S)) == f["observed"]
+            else:
+                okk = False
+            if okk:
+                return list(S)
+        return None
+    if tdef is None:
+        return None
+    cand = [d["id"] for d in DEFECTS if d["id"] in ACTIVE and _scope_ok(d, tdef)]
+    if not cand:
+        return None
+    if kind in ("dv-accepts-invalid", "dv-rejects-valid", "parse-accepts-invalid", "parse-rejects-valid"):
+        want = "V" if "accepts" in kind else "I"
+        for S in _subsets(cand):
+            T = _model_type(tdef, S)
+            if T is None:
+                continue
+            st = _with(S, lambda: T.check(f["raw"]))
+            e = st[0]
+            if kind.startswith("parse"):
+                e = parse_expect(T, tdef, st[0], st[2])[0]
+            if e == want:
+                return list(S)
+        return None
+    if kind in ("compare-equal-values-differ", "compare-unequal-values-equal", "compare-order"):
+        for S in _subsets(cand):
+            T = _model_type(tdef, S)
+            if T is not None and compare_consistent(T, _with(S, lambda: compare_expect(T, f["a"], f["b"])), f["observed"]):
+                return list(S)
+        return None
+    if kind == "compare-equality-not-transitive":
+        for S in _subsets(cand):
+            T = _model_type(tdef, S)
+            if T is None:
+                continue
+            e = _with(S, lambda: [compare_expect(T, f["a"], f["b"]), compare_expect(T, f["b"], f["c"]), compare_expect(T, f["a"], f["c"])])
+            if e[0] == EQ and e[1] == EQ and e[2] not in (EQ, None):
+                return list(S)
+        return None
+    return None
+
+
 class Acc:
     """counters / violations / samples of one worker"""
 
@@ -600,6 +910,12 @@ class Acc:
         self.cnt[k] = self.cnt.get(k, 0) + n
 
     def violation(self, kind, **fields):
+        ids = explain(kind, fields) if not kind.startswith(("defect:", "crash")) else None
+        if ids:
+            for i in ids:
+                self.count("known_defect:" + i)
+            self.count("mismatches_explained_by_listed_defects")
+            return
         self.count("violations")
         self.count("violations:" + kind)
         tn = O.tdef_label(fields["tdef"]) if fields.get("tdef") else str(fields.get("type"))
@@ -1009,13 +1325,11 @@ def process_segment(space, drv, tdefs, Ts, cases, pairs, tag, acc, pk, pstate):
                 acc.count("parse_values")
                 acc.count("parse_valid" if pv else "parse_invalid")
                 ctx = dict(case=gidx, tdef=tdefs[tid], type=O.tdef_str(tdefs[tid]), raw=raw, lex=lex, scanner=scn)
-                exp = st
-                if st == "V" and uses_builtin(tdefs[tid], ("ENTITY", "ENTITIES")):
-                    exp = "I"   # no unparsed entity is declared in the instance
-                    acc.count("parse_entity_undeclared")
-                if st == "V" and T.variety == "atomic" and isinstance(T.prim, O.QNameT) and ":" in lex and lex.split(":")[0] != "p":
-                    exp = "I"   # prefix not bound in the instance (only p is)
-                    acc.count("parse_qname_unbound_prefix")
+                exp, why_ctx = parse_expect(T, tdefs[tid], st, lex)
+                if why_ctx == "entity":
+                    acc.count("parse_entity_undeclared")     # no unparsed entity is declared in the instance
+                elif why_ctx == "prefix":
+                    acc.count("parse_qname_unbound_prefix")  # prefix not bound in the instance (only p is)
                 if raw != lex:
                     acc.count("parse_ws_processed")
                 if exp == "U":
@@ -1081,8 +1395,8 @@ def process_segment(space, drv, tdefs, Ts, cases, pairs, tag, acc, pk, pstate):
 
 
 # ================================================================================================ worker / space runner
-CHUNK = 40000
-KNOWN_DEFECT_CANARIES = [("date-canonical-negative-year", "date", "-0001-01-01"), ("list-canonical-empty", "NMTOKENS-as-list", "")]
+CHUNK = 20000
+KNOWN_DEFECT_CANARIES = []      # (driver KNOWN_DEFECTS entry, type, literal): none left, both crashes are repaired in /repo
 
 
 def build_space(name, tier):
@@ -1120,7 +1434,7 @@ def units_of(enums, pairs):
     return units, g + len(pairs)
 
 
-def worker(w, W, space, tier, exe, env, workdir, pk, out_path):
+def worker(w, W, space, tier, exe, env, workdir, pk, out_path, t_space0=None, deadline=0):
     acc = Acc()
     t0 = time.time()
     tdefs, enums, pairs = build_space(space, tier)
@@ -1147,6 +1461,9 @@ def worker(w, W, space, tier, exe, env, workdir, pk, out_path):
             seg += 1
             cases, prs = [], []
     for u in mine:
+        if deadline and time.time() - t_space0 > deadline:
+            acc.count("deadline_skipped", (u[3] - u[2]) if u[0] == "E" else (u[2] - u[1]))     # cases not started: evidence says exhaustive=false
+            continue
         if u[0] == "E":
             _, ei, s, t, g = u
             tid, e = enums[ei]
@@ -1255,10 +1572,32 @@ def run_space(run, tier, out_path, env):
     exe = build.ensure_driver("c09_dtv", run.get("flavor", "asan"))
     workdir = os.path.join(build.BUILD, "run", "c09-%s-%s-%d" % (space, tier, os.getpid()))
     os.makedirs(workdir, exist_ok=True)
+    # ---- listed defects: a predicate is live only while its witness still fails on the library under test
+    global ACTIVE
+    ACTIVE = set()
+    wit = run_witnesses(exe, env, workdir)
+    ACTIVE = set(i for i, (passed, _, _) in wit.items() if not passed)
+    if space == "witness":
+        acc = Acc()
+        for d in DEFECTS:
+            passed, res, ln = wit[d["id"]]
+            acc.count("evaluations")
+            acc.count("witness_passed_defect_absent" if passed else "witness_failed_defect_present")
+            if not passed:
+                op, tdef, args = d["w"]
+                acc.violation("defect:" + d["id"], defect=d["id"], what=d["what"], where=d["where"], operation={"V": "validate/canonical/XSValue", "C": "compare", "P": "in-parse"}[op],
+                              tdef=tdef, type=O.tdef_str(tdef), raw=args[0], args=args, expected=d["expected"], observed=res.replace("\t", " | ")[:600])
+        cnt = {k: v for k, v in acc.cnt.items() if not k.startswith(("_", "vt:"))}
+        cnt.setdefault("violations", 0)
+        json.dump({"space": run["name"], "total": len(DEFECTS), "workers": 1, "wall_s": round(time.time() - t0, 3), "bounds": {"witnesses": len(DEFECTS)},
+                   "counters": cnt, "violations": acc.viol, "samples": [{"defect": d["id"], "witness": d["w"][2]} for d in DEFECTS[:6]]}, open(out_path, "w"))
+        os.rmdir(workdir)
+        return
     tdefs, enums, pairs = build_space(space, tier)
     Ts = [Type(t) for t in tdefs]
     units, total = units_of(enums, pairs)
     acc = Acc()
+    acc.count("listed_defects_active", len(ACTIVE))
     # ---- schema sanity in the parent: every generated derivation is legal, so any diagnostic is a finding (or an oracle error)
     xsd, line2type = O.emit_schema(tdefs)
     sp = os.path.join(workdir, "parent.xsd")
@@ -1294,7 +1633,7 @@ def run_space(run, tier, out_path, env):
         if pid == 0:
             rc = 0
             try:
-                worker(w, W, space, tier, exe, env, workdir, pk, os.path.join(workdir, "res%d.json" % w))
+                worker(w, W, space, tier, exe, env, workdir, pk, os.path.join(workdir, "res%d.json" % w), t0, float(run.get("deadline", 0)))
             except BaseException:
                 import traceback
                 traceback.print_exc()
@@ -1360,7 +1699,10 @@ def run_space(run, tier, out_path, env):
 
 def replay(body):
     """re-executes one recorded violation through a one-type schema and prints library answers next to the oracle's"""
-    v = body["violation"]
+    v = dict(body["violation"])
+    if v.get("operation") == "compare" and len(v.get("args", [])) == 2:
+        v.pop("raw", None)
+        v["a"], v["b"] = v["args"]
     tdef = v.get("tdef")
     if tdef is None:
         print("nothing to replay:", json.dumps(v)[:800])
@@ -1423,6 +1765,8 @@ def _cov(results):
         "in_parse_values": _sum(results, "parse_values"), "in_parse_whitespace_processed": _sum(results, "parse_ws_processed"),
         "xsvalue_validations": _sum(results, "xs_valid") + _sum(results, "xs_invalid"), "canonical_round_trips": _sum(results, "canon_roundtrips"),
         "compare_calls": _sum(results, "compare_calls"), "not_judged_ambiguous": _sum(results, "oracle_unspecified"),
+        "listed_defect_witnesses_failing": _sum(results, "witness_failed_defect_present"),
+        "mismatches_explained_by_listed_defects": _sum(results, "mismatches_explained_by_listed_defects"),
     }
 
 
@@ -1451,16 +1795,19 @@ SPEC = dict(
         "unions are only built from members with whiteSpace=collapse; length facets on QName/NOTATION are not judged; enumerations on QName/NOTATION are judged in-parse only",
         "canonical literals: validity is not judged for pattern-restricted types (a pattern may exclude the primitive's canonical literal); the form of canonical literals of "
         "float/double values produced by the documented out-of-bound conversion is not judged; XSValue returns st_NoContent for blank content",
-        "two crashing library calls are skipped behind KNOWN_DEFECTS in drv/c09_dtv.cpp (counted as known_defect_skipped:*), one unguarded canary each keeps reporting them",
+        "DEFECTS (xv/c09.py): each listed library defect is asserted strictly on one minimal witness (run 'witness', kind defect:<id>); elsewhere a mismatch is only "
+        "counted (known_defect:<id>) when it is exactly what the defect's narrow predicate / alternative model predicts, and only while the witness still fails",
     ],
     coverage=_cov,
     runs=dict(
-        quick=[dict(name="lex", python="c09.run_space", space="lex", needs_lib=True, parse_every=10),
-               dict(name="facets", python="c09.run_space", space="facets", needs_lib=True, parse_every=5),
-               dict(name="order", python="c09.run_space", space="order", needs_lib=True, parse_every=3)],
-        thorough=[dict(name="lex", python="c09.run_space", space="lex", needs_lib=True, parse_every=20),
-                  dict(name="facets", python="c09.run_space", space="facets", needs_lib=True, parse_every=5),
-                  dict(name="order", python="c09.run_space", space="order", needs_lib=True, parse_every=1)],
+        quick=[dict(name="witness", python="c09.run_space", space="witness", needs_lib=True),
+               dict(name="lex", python="c09.run_space", space="lex", needs_lib=True, parse_every=10, deadline=85),
+               dict(name="facets", python="c09.run_space", space="facets", needs_lib=True, parse_every=5, deadline=65),
+               dict(name="order", python="c09.run_space", space="order", needs_lib=True, parse_every=3, deadline=50)],
+        thorough=[dict(name="witness", python="c09.run_space", space="witness", needs_lib=True),
+                  dict(name="lex", python="c09.run_space", space="lex", needs_lib=True, parse_every=20, deadline=840),
+                  dict(name="facets", python="c09.run_space", space="facets", needs_lib=True, parse_every=5, deadline=400),
+                  dict(name="order", python="c09.run_space", space="order", needs_lib=True, parse_every=1, deadline=200)],
     ),
     manifest=dict(text="bounded-exhaustive agreement of the datatype validators, XSValue and in-parse validation with an independent model of XML Schema Part 2",
                   note="reference model in Python; ambiguous corners of the Recommendation excluded and listed",
